@@ -18,6 +18,7 @@ def parseAct (t : String) : Option (Option UAct) :=
   -- `some none` = an action of the harness only (stall / yield / ctx-cancel): invisible to the model
   match t.toList with
   | ['p'] => some (some .panic)
+  | ['p', 'e'] => some (some .panic)     -- a panic whose value is an error
   | ['a'] => some (some .readAll)
   | ['o'] => some (some .readOne)
   | ['s'] => some none
@@ -32,7 +33,8 @@ def parseAct (t : String) : Option (Option UAct) :=
 
 def parseScript (s : String) : Option (List UAct) :=
   if s = "-" then some [] else
-  (s.splitOn ".").foldr (fun t acc => do
+  -- `q` = runtime.Goexit(): the user function ends there (for the model: the script ends)
+  ((s.splitOn ".").takeWhile (· ≠ "q")).foldr (fun t acc => do
     let l ← acc
     let a ← parseAct t
     pure (match a with | some x => x :: l | none => l)) (some [])
@@ -114,7 +116,7 @@ drop every later write. -/
 def liveWritesOf (raw : String) : List Nat :=
   if raw = "-" then [] else
   let toks := (raw.splitOn ".").takeWhile fun t =>
-    !(t = "x" || t = "s" || t = "uxb" || t.startsWith "uce" || t.startsWith "c")
+    !(t = "x" || t = "s" || t = "q" || t = "uxb" || t.startsWith "uce" || t.startsWith "c")
   toks.filterMap fun t => match t.toList with
     | 'w' :: d => (String.ofList d).toNat?
     | _ => none
@@ -311,6 +313,11 @@ def runLine (r : Report) (sec : Nat) (l : Line) : Report := Id.run do
   for k in cancelCodes.eraseDups do
     r := r.addCover s!"cancel-error-{errKindName k}"
     r := r.addCover s!"cancel-error-{errKindName k}-{run.api}"
+  let toksOf (key : String) : List String := ((kv? l.op key).getD "-").splitOn "/" |>.flatMap (·.splitOn ".")
+  for (who, key) in [("mapper", "m"), ("reducer", "r")] do
+    if (toksOf key).contains "q" then r := r.addCover s!"goexit-{who}-{run.api}"
+    if (toksOf key).contains "pe" then r := r.addCover s!"panic-error-value-{who}-{run.api}"
+    if (toksOf key).contains "p" then r := r.addCover s!"panic-string-value-{who}-{run.api}"
   if nestedBad ≠ 0 then
     r := r.violation sec l.idx s!"{nestedBad} nested call(s) from inside a user function misbehaved (two functions of one Finish could not run at the same time / FinishVoid did not run both / a default MapReduce did not return its sum) op=[{joinSp l.op}]"
   for wt in run.waits.eraseDups do r := r.addCover s!"wait-{wt}"
